@@ -61,7 +61,7 @@ def model_labels(cfg_lines, labels, locked):
     return p.stdout.decode().splitlines()
 
 
-def run_schedule(lines, short_ms=250, long_ms=30000):
+def run_schedule(lines, short_ms=250, long_ms=30000, keep_going=False):
     os.makedirs(os.path.join(build.BUILD, "work"), exist_ok=True)
     wd = tempfile.mkdtemp(prefix="sch-", dir=os.path.join(build.BUILD, "work"))
     try:
@@ -71,7 +71,8 @@ def run_schedule(lines, short_ms=250, long_ms=30000):
         t0 = time.time()
         try:
             p = subprocess.run([build.XSV, "sched", sp, os.path.join(wd, "w"), op], stdout=subprocess.PIPE,
-                               stderr=subprocess.PIPE, timeout=600, env=dict(os.environ, XSV_SHORT_MS=str(short_ms), XSV_LONG_MS=str(long_ms)))
+                               stderr=subprocess.PIPE, timeout=600, env=dict(os.environ, XSV_SHORT_MS=str(short_ms), XSV_LONG_MS=str(long_ms),
+                                        **({"XSV_CONTINUE": "1"} if keep_going else {})))
             rc, err = p.returncode, p.stderr.decode(errors="replace")[-1500:]
         except subprocess.TimeoutExpired:
             rc, err = -9, "timeout"
@@ -100,7 +101,7 @@ def observed(lines, out):
         ln = int(l.split()[1])
         cmd = lines[ln].split()
         actual = l.split("|")[-1].replace("actual", "").split()
-        if cmd[1] == "consume":
+        if cmd[1] in ("consume", "drain"):
             for a in actual:
                 if a.startswith("item:"):
                     cons.setdefault(int(cmd[2]), []).append(a[5:])
